@@ -140,7 +140,7 @@ pub fn cv_wait_impl<Sc: Scenario>(addr: usize) {
     s.cv_entered = true;
     let n0 = unsafe { *(addr as *const usize) };
     let mut rounds = 0;
-    let max_rounds = Sc::others_ops() + 1;
+    let max_rounds = Sc::others_ops();
     while rounds < max_rounds {
         if unsafe { *(addr as *const usize) } != n0 {
             return;
@@ -160,7 +160,13 @@ pub fn cv_wait_impl<Sc: Scenario>(addr: usize) {
         s.depth -= 1;
         rounds += 1;
     }
-    kani::assume(unsafe { *(addr as *const usize) } != n0);
+    if unsafe { *(addr as *const usize) } != n0 {
+        return;
+    }
+    // everybody else has run all of its operations and nobody notified this waiter
+    kani::assume(Sc::others_done());
+    s.cv_waits += 1;
+    Sc::stuck();
 }
 
 #[inline(never)]
